@@ -276,6 +276,11 @@ pub struct ReplayFile {
     pub tier: String,
     pub shrink_steps: u64,
     pub scenario: Value,
+    /// Non-empty only for findings that depend on hidden state carried across calls (a cache, a
+    /// thread-local, a static): the run indices to execute IN ORDER IN ONE FRESH THREAD; the last one is
+    /// the run whose violation is reported. Scenarios are regenerated from (verif_seed, tier, run index).
+    #[serde(default)]
+    pub history: Vec<u64>,
 }
 
 fn msg_digest(v: &Violation) -> u64 {
@@ -286,6 +291,8 @@ struct Found<S> {
     run: u64,
     scenario: S,
     violation: Violation,
+    /// chunk starts the finding worker had processed so far (its call history), newest last
+    chunks: Vec<u64>,
 }
 
 struct WorkerOut<S> {
@@ -385,6 +392,9 @@ fn replay<C: Check>(check: &C, path: &Path) -> i32 {
             return 2;
         }
     };
+    if !rf.history.is_empty() {
+        return replay_history(check, &rf, path);
+    }
     let sc: C::Scenario = match serde_json::from_value(rf.scenario.clone()) {
         Ok(s) => s,
         Err(e) => {
@@ -422,6 +432,149 @@ fn replay<C: Check>(check: &C, path: &Path) -> i32 {
         if same { "" } else { " (different key than recorded)" }
     );
     1
+}
+
+/// Execute the listed runs in order in ONE fresh thread (clean thread-local state; in a fresh process also
+/// clean statics) and return the violations of the last one.
+fn execute_history<C: Check>(check: &C, seed: u64, tier: Tier, runs: &[u64]) -> Option<Vec<Violation>> {
+    std::thread::scope(|s| {
+        s.spawn(|| {
+            let mut last = Vec::new();
+            for &i in runs {
+                let mut obs = Obs::default();
+                let r = catch_unwind(AssertUnwindSafe(|| {
+                    let mut g = Xo::derive(seed, check.id(), 0, i);
+                    let sc = check.generate(&mut g, tier, i);
+                    check.execute(&sc, &mut obs)
+                }));
+                match r {
+                    Ok(vs) => last = vs,
+                    Err(_) => return None,
+                }
+            }
+            Some(last)
+        })
+        .join()
+        .ok()
+        .flatten()
+    })
+}
+
+fn replay_history<C: Check>(check: &C, rf: &ReplayFile, path: &Path) -> i32 {
+    let tier = if rf.tier == "thorough" { Tier::Thorough } else { Tier::Quick };
+    let Some(vs) = execute_history(check, rf.verif_seed, tier, &rf.history) else {
+        eprintln!("HARNESS-ERROR: history replay panicked in the harness");
+        return 2;
+    };
+    let hits: Vec<&Violation> = vs.iter().filter(|v| v.key == rf.key).collect();
+    if hits.is_empty() {
+        println!(
+            "REPLAY property={} result=holds file={} (history of {} runs)",
+            check.id(),
+            path.display(),
+            rf.history.len()
+        );
+        return 0;
+    }
+    for v in &hits {
+        println!(
+            "REPLAY property={} clause={} key={} digest={:016x} history_runs={} message={}",
+            check.id(),
+            v.clause,
+            v.key,
+            msg_digest(v),
+            rf.history.len(),
+            v.message
+        );
+    }
+    println!("VIOLATION property={} replay={}", check.id(), path.display());
+    1
+}
+
+/// Does `runs` (executed in one fresh thread of a fresh process) end in a violation with this key?
+fn history_reproduces(file: &Path, root: &Path, rf: &ReplayFile, runs: &[u64]) -> bool {
+    let mut probe = rf.clone();
+    probe.history = runs.to_vec();
+    if std::fs::write(file, serde_json::to_string_pretty(&probe).unwrap_or_default()).is_err() {
+        return false;
+    }
+    std::env::current_exe()
+        .ok()
+        .and_then(|exe| std::process::Command::new(exe).arg("--replay").arg(file).env("VERIF_ROOT", root).output().ok())
+        .is_some_and(|o| String::from_utf8_lossy(&o.stdout).contains(&format!("key={} digest=", rf.key)))
+}
+
+/// A violation that does not reproduce from its scenario alone: look for the call history that produces it.
+/// Candidates: the finding worker's own history (thread-local hidden state), then all runs up to the failing
+/// one in index order (process-wide hidden state). The history is shortened (shortest reproducing suffix, then
+/// dropping blocks) within a budget of child processes. Returns the minimised list of runs.
+fn find_history(file: &Path, root: &Path, rf: &ReplayFile, chunks: &[u64], chunk: u64, total: u64) -> Option<Vec<u64>> {
+    let run = rf.run;
+    let mut own: Vec<u64> = chunks.iter().flat_map(|&c| c..(c + chunk).min(total)).collect();
+    if let Some(pos) = own.iter().position(|&i| i == run) {
+        own.truncate(pos + 1);
+    } else {
+        own.push(run);
+    }
+    let mut candidates: Vec<Vec<u64>> = vec![own];
+    if run <= 400_000 {
+        candidates.push((0..=run).collect());
+    }
+    for full in candidates {
+        if full.len() > 2_000_000 || !history_reproduces(file, root, rf, &full) {
+            continue;
+        }
+        // shortest reproducing suffix: doubling, then bisection
+        let n = full.len();
+        let mut hi = n; // known to reproduce with the last `hi` runs
+        let mut k = 1usize;
+        let mut lo = 0usize; // known not to reproduce with the last `lo` runs (0: untested convention)
+        while k < n {
+            if history_reproduces(file, root, rf, &full[n - k..]) {
+                hi = k;
+                break;
+            }
+            lo = k;
+            k *= 2;
+        }
+        while hi - lo > 1 {
+            let mid = lo + (hi - lo) / 2;
+            if history_reproduces(file, root, rf, &full[n - mid..]) {
+                hi = mid;
+            } else {
+                lo = mid;
+            }
+        }
+        let mut cur: Vec<u64> = full[n - hi..].to_vec();
+        // drop blocks of earlier runs while it still reproduces (the last run always stays)
+        let mut budget = 60u32;
+        let mut size = (cur.len() / 2).max(1);
+        while size >= 1 && budget > 0 && cur.len() > 1 {
+            let mut start = 0usize;
+            let mut progressed = false;
+            while start + 1 < cur.len() && budget > 0 {
+                let end = (start + size).min(cur.len() - 1);
+                let mut cand = cur[..start].to_vec();
+                cand.extend_from_slice(&cur[end..]);
+                budget -= 1;
+                if cand.len() < cur.len() && history_reproduces(file, root, rf, &cand) {
+                    cur = cand;
+                    progressed = true;
+                } else {
+                    start += size;
+                }
+            }
+            if size == 1 && !progressed {
+                break;
+            }
+            size = (size / 2).max(1);
+            if size == 1 && cur.len() > 400 {
+                break;
+            }
+        }
+        return Some(cur);
+    }
+    None
 }
 
 fn audit<C: Check>(check: &C, n: u64) -> i32 {
@@ -532,11 +685,13 @@ fn run_tier<C: Check>(check: &C, tier: Tier) -> i32 {
                     found: BTreeMap::new(),
                     violations_total: 0,
                 };
+                let mut my_chunks: Vec<u64> = Vec::new();
                 'outer: loop {
                     let start = next.fetch_add(chunk, Ordering::Relaxed);
                     if start >= total || abort.load(Ordering::Relaxed) {
                         break;
                     }
+                    my_chunks.push(start);
                     for i in start..(start + chunk).min(total) {
                         beats[wi].1.store(t0.elapsed().as_millis() as u64, Ordering::Relaxed);
                         beats[wi].0.store(i + 1, Ordering::Relaxed);
@@ -568,7 +723,7 @@ fn run_tier<C: Check>(check: &C, tier: Tier) -> i32 {
                                     if better && (w.found.len() < 64 || w.found.contains_key(&v.key)) {
                                         w.found.insert(
                                             v.key.clone(),
-                                            Found { run: i, scenario: sc.clone(), violation: v },
+                                            Found { run: i, scenario: sc.clone(), violation: v, chunks: my_chunks.clone() },
                                         );
                                     }
                                 }
@@ -664,6 +819,7 @@ fn run_tier<C: Check>(check: &C, tier: Tier) -> i32 {
             tier: tier.name().to_string(),
             shrink_steps: steps,
             scenario: serde_json::to_value(&sc).unwrap_or(Value::Null),
+            history: Vec::new(),
         };
         let _ = std::fs::create_dir_all(root.join("replays"));
         if let Err(e) = std::fs::write(&file, serde_json::to_string_pretty(&rf).unwrap_or_default()) {
@@ -671,6 +827,7 @@ fn run_tier<C: Check>(check: &C, tier: Tier) -> i32 {
             return 2;
         }
         // fresh-process reproduction (same key; normally also the same message digest)
+        let mut history_note: Option<usize> = None;
         let mut exact = false;
         let mut same_key = false;
         for _attempt in 0..3 {
@@ -700,13 +857,38 @@ fn run_tier<C: Check>(check: &C, tier: Tier) -> i32 {
                     if same_key { "with different values" } else { "only intermittently" }
                 );
             } else {
-                eprintln!(
-                    "HARNESS-ERROR: property={} violation key={} did not reproduce from {} in a fresh process",
-                    check.id(),
-                    v.key,
-                    file.display()
-                );
-                return 2;
+                // The scenario alone does not produce the violation in a fresh process: the code under test
+                // carries hidden state across calls (or the harness is at fault). Look for the call history.
+                let orig = ReplayFile {
+                    clause: f.violation.clause.clone(),
+                    message: f.violation.message.clone(),
+                    shrink_steps: 0,
+                    scenario: serde_json::to_value(&f.scenario).unwrap_or(Value::Null),
+                    ..rf.clone()
+                };
+                match find_history(&file, &root, &orig, &f.chunks, chunk, total) {
+                    Some(h) => {
+                        let fin = ReplayFile { history: h.clone(), ..orig };
+                        let _ = std::fs::write(&file, serde_json::to_string_pretty(&fin).unwrap_or_default());
+                        println!(
+                            "  note: key={} does not follow from its scenario alone; it reproduces after {} earlier run(s) on the \
+                             same thread (hidden state carried across calls). The replay file lists the runs.",
+                            v.key,
+                            h.len().saturating_sub(1)
+                        );
+                        history_note = Some(h.len());
+                    }
+                    None => {
+                        eprintln!(
+                            "HARNESS-ERROR: property={} violation key={} did not reproduce from {} in a fresh process, \
+                             neither alone nor after the finding worker's call history",
+                            check.id(),
+                            v.key,
+                            file.display()
+                        );
+                        return 2;
+                    }
+                }
             }
         }
         let kf = known
@@ -723,7 +905,7 @@ fn run_tier<C: Check>(check: &C, tier: Tier) -> i32 {
             println!("  clause={} key={} run={} shrink_steps={steps}", v.clause, v.key, f.run);
             println!("  {}", v.message);
             println!("VIOLATION property={} replay={}", check.id(), file.display());
-            reported.push(json!({"key": v.key, "known": false, "replay": file, "message": v.message}));
+            reported.push(json!({"key": v.key, "known": false, "replay": file, "message": v.message, "history_runs": history_note}));
         }
     }
 
@@ -842,6 +1024,7 @@ fn report_hang<C: Check>(check: &C, root: &Path, seed: u64, tier: Tier, run: u64
         tier: tier.name().to_string(),
         shrink_steps: 0,
         scenario: serde_json::to_value(&sc).unwrap_or(Value::Null),
+        history: Vec::new(),
     };
     let _ = std::fs::create_dir_all(root.join("replays"));
     let _ = std::fs::write(&file, serde_json::to_string_pretty(&rf).unwrap_or_default());
@@ -947,6 +1130,7 @@ fn locate_abort<C: Check>(check: &C, tier: Tier) -> i32 {
         tier: tier.name().to_string(),
         shrink_steps: 0,
         scenario: sc,
+        history: Vec::new(),
     };
     let _ = std::fs::create_dir_all(root.join("replays"));
     let _ = std::fs::write(&file, serde_json::to_string_pretty(&rf).unwrap_or_default());
